@@ -592,3 +592,152 @@ Proof.
     rewrite hn_S, (token_token1 _ _ _ _ vstart_lbrace), (token1_open_obj ts sk _ Hs).
     cbn [need] in Hf. rewrite (obj_loop m H HR true false body Eb ts sk rest [] fu) by lia. reflexivity.
 Qed.
+
+(* ------------------------------------------------------------------------------------------ *)
+(* fuel bound, top level                                                                        *)
+(* ------------------------------------------------------------------------------------------ *)
+Lemma need_bound v : forall o, print_ v = Ok o -> readable v -> (need v <= 4 * length o)%nat.
+Proof.
+  induction v using jv_ind2; intros o Ho HR;
+    try (destruct (print_vstart _ _ Ho HR) as [c0 [r0 [-> _]]]; cbn [need length]; lia).
+  - (* arrays *)
+    rewrite marshal_arr in Ho. destruct (arr_body print_ l true) as [body| |] eqn:Eb; try discriminate.
+    inversion Ho; subst. cbn [need length]. rewrite app_length. cbn [length].
+    assert (HB : forall first body, arr_body print_ l first = Ok body ->
+              (fold_right (fun x a => S (need x + a)) 2 l <= 2 + 4 * length body + (if first then 1 else 0))%nat).
+    { clear Eb Ho body. cbn [readable] in HR. induction H as [|x l Hx HF IH]; intros first body Hb.
+      - inversion Hb. cbn. lia.
+      - rewrite arr_body_cons in Hb. destruct HR as [Rx HR].
+        destruct (print_ x) as [a| |] eqn:Ea; try discriminate. cbn [bind] in Hb.
+        destruct (arr_body print_ l false) as [b| |] eqn:Eb; try discriminate. inversion Hb; subst.
+        cbn [fold_right]. specialize (Hx _ eq_refl Rx). specialize (IH HR false b Eb). cbv iota in IH.
+        rewrite !app_length. destruct first; unfold comma; cbn [length]; lia. }
+    specialize (HB true body Eb). cbv iota in HB. lia.
+  - (* objects *)
+    rewrite marshal_obj in Ho. destruct (obj_body cfg_fixed print_ m true false) as [body| |] eqn:Eb; try discriminate.
+    inversion Ho; subst. cbn [need length]. rewrite app_length. cbn [length].
+    assert (HB : forall first written body, obj_body cfg_fixed print_ m first written = Ok body ->
+              (fold_right (fun kv a => if is_null (snd kv) then a else S (need (snd kv) + a)) 2 m <= 2 + 4 * length body)%nat).
+    { clear Eb Ho body. cbn [readable] in HR. induction H as [|[k x] m Hx HF IH]; intros first written body Hb.
+      - inversion Hb. cbn. lia.
+      - rewrite obj_body_cons in Hb. cbn [fix_nullkey fix_comma cfg_fixed negb] in Hb. rewrite andb_false_r in Hb.
+        destruct HR as [Rx HR]. cbn [snd] in Rx, Hx.
+        destruct (encode_string k) as [kb| |] eqn:Ek; try discriminate. cbn [bind] in Hb.
+        cbn [fold_right snd].
+        destruct (is_null x) eqn:En.
+        + eapply IH; eauto.
+        + destruct (print_ x) as [a| |] eqn:Ea; try discriminate. cbn [bind] in Hb.
+          destruct (obj_body cfg_fixed print_ m false true) as [b| |] eqn:Eb; try discriminate. inversion Hb; subst.
+          specialize (Hx _ eq_refl Rx). specialize (IH HR false true b Eb).
+          rewrite !app_length. cbn [length]. rewrite !app_length. lia. }
+    specialize (HB true false body Eb). lia.
+Qed.
+
+Lemma parse_print v o : print_ v = Ok o -> readable v -> parse o = Ok (strip v).
+Proof.
+  intros Ho HR. unfold parse, unmarshal_with.
+  pose proof (round_trip_value v o Ho HR TopValue [] [] (fuel_for o) eq_refl I) as H.
+  rewrite app_nil_r in H. fold idm. rewrite H.
+  - reflexivity.
+  - pose proof (need_bound v o Ho HR). unfold fuel_for. lia.
+Qed.
+
+(* ------------------------------------------------------------------------------------------ *)
+(* what reading produces                                                                        *)
+(* ------------------------------------------------------------------------------------------ *)
+Lemma parse_int64_range lit z : parse_int64 lit = Some z -> in_int64 z = true.
+Proof.
+  unfold parse_int64.
+  destruct (match lit with [] => (false, []) | b :: r => if Byte.eqb b c_minus then (true, r) else (false, lit) end) as [neg ds].
+  destruct ds; [discriminate|]. destruct (all_digits (b :: ds)); [|discriminate].
+  destruct (in_int64 _) eqn:E; [|discriminate]. intro H. inversion H; subst. exact E.
+Qed.
+
+Lemma forallb_rev {A} (p : A -> bool) l : forallb p (rev l) = forallb p l.
+Proof.
+  induction l; cbn; auto. rewrite forallb_app, IHl. cbn. rewrite andb_true_r. apply andb_comm.
+Qed.
+
+Lemma read_ints_ok c f :
+  (forall d vo d', handle_next c idm f d = Ok (vo, d') -> ints_ok (of_nil vo) = true) /\
+  (forall d acc vo d', handle_object c idm f d acc = Ok (vo, d') ->
+     forallb (fun kv => ints_ok (snd kv)) acc = true -> ints_ok (of_nil vo) = true) /\
+  (forall d acc vo d', handle_array c idm f d acc = Ok (vo, d') ->
+     forallb ints_ok acc = true -> ints_ok (of_nil vo) = true).
+Proof.
+  induction f as [|f [IHn [IHo IHa]]]; [repeat split; intros; discriminate|].
+  repeat split.
+  - intros d vo d' H. rewrite hn_S in H. destruct (token d) as [| |t d1]; try discriminate.
+    + destruct (fix_eof c); inversion H; reflexivity.
+    + destruct t as [[|] [|] | s | lit | b |]; try (inversion H; reflexivity).
+      * eapply IHo; eauto.
+      * eapply IHa; eauto.
+      * cbn in H. destruct (parse_int64 lit) eqn:E; [inversion H; subst; cbn; eapply parse_int64_range; eauto|].
+        destruct (parse_float lit); [inversion H; reflexivity|].
+        destruct (fix_range c); inversion H; reflexivity.
+  - intros d acc vo d' H Hacc. rewrite ho_S in H.
+    destruct (handle_next c idm f d) as [[[v|] d1]|e|] eqn:E1; try discriminate.
+    + destruct v; try discriminate.
+      destruct (handle_next c idm f d1) as [[vo2 d2]|e|] eqn:E2; try discriminate.
+      eapply IHo; eauto. cbn [forallb snd]. rewrite Hacc, (IHn _ _ _ E2). reflexivity.
+    + inversion H; subst. cbn. unfold idm. now rewrite forallb_rev.
+  - intros d acc vo d' H Hacc. rewrite ha_S in H.
+    destruct (handle_next c idm f d) as [[[v|] d1]|e|] eqn:E1; try discriminate.
+    + eapply IHa; eauto. cbn [forallb]. rewrite Hacc. pose proof (IHn _ _ _ E1) as Hv. cbn in Hv. now rewrite Hv.
+    + inversion H; subst. cbn. now rewrite forallb_rev.
+Qed.
+
+Lemma parse_with_ints_ok c t v : unmarshal_with c idm t = Ok v -> ints_ok v = true.
+Proof.
+  unfold unmarshal_with. destruct (handle_next c idm (fuel_for t) _) as [[vo d]|e|] eqn:E; try discriminate.
+  pose proof (proj1 (read_ints_ok c _) _ _ _ E) as Hi.
+  destruct (fix_eof c); [destruct (token d)|]; intro H; inversion H; subst; auto.
+Qed.
+
+(* only the float part of readability is a premise *)
+Fixpoint floats_ok (v : jv) : Prop :=
+  match v with
+  | JFloat f => float_ok f
+  | JArr l => all_list floats_ok l
+  | JObj m => all_list (fun kv => floats_ok (snd kv)) m
+  | _ => True
+  end.
+
+Lemma readable_split v : ints_ok v = true -> floats_ok v -> readable v.
+Proof.
+  induction v using jv_ind2; cbn; auto.
+  - intros H1 H2. rewrite forallb_forall in H1. apply all_list_Forall. apply all_list_Forall in H2.
+    rewrite Forall_forall in *. auto.
+  - intros H1 H2. rewrite forallb_forall in H1. apply all_list_Forall. apply all_list_Forall in H2.
+    rewrite Forall_forall in *. auto.
+Qed.
+
+Lemma floats_ok_float_free v : float_free v = true -> floats_ok v.
+Proof.
+  induction v using jv_ind2; cbn; auto; try discriminate.
+  - intros H1. rewrite forallb_forall in H1. apply all_list_Forall. rewrite Forall_forall in *. auto.
+  - intros H1. rewrite forallb_forall in H1. apply all_list_Forall. rewrite Forall_forall in *. auto.
+Qed.
+
+Lemma readable_sortrec v : readable v -> readable (sortrec v).
+Proof.
+  induction v using jv_ind2; auto.
+  - cbn. intros HR. apply all_list_Forall. apply all_list_Forall in HR.
+    rewrite Forall_forall in *. intros y Hy. apply in_map_iff in Hy. destruct Hy as [x [<- Hx]]. auto.
+  - rewrite sortrec_obj. cbn [readable]. intros HR. apply all_list_Forall. apply all_list_Forall in HR.
+    eapply Permutation_Forall; [symmetry; apply sort_perm|].
+    rewrite Forall_forall in *. intros y Hy. apply in_map_iff in Hy. destruct Hy as [x [<- Hx]]. cbn. auto.
+Qed.
+
+Lemma readable_strip v : readable v -> readable (strip v).
+Proof.
+  induction v using jv_ind2; auto.
+  - cbn. intros HR. apply all_list_Forall. apply all_list_Forall in HR.
+    rewrite Forall_forall in *. intros y Hy. apply in_map_iff in Hy. destruct Hy as [x [<- Hx]]. auto.
+  - rewrite strip_obj. cbn [readable]. intros HR. apply all_list_Forall. apply all_list_Forall in HR.
+    rewrite Forall_forall in *. intros y Hy. apply filter_In in Hy. destruct Hy as [Hy _].
+    apply in_map_iff in Hy. destruct Hy as [x [<- Hx]]. cbn. auto.
+Qed.
+
+Lemma readable_norm v : readable v -> readable (norm v).
+Proof. intro H. unfold norm. now apply readable_strip, readable_sortrec. Qed.
